@@ -154,6 +154,7 @@ class Evaluator:
             self.stats.inc("status_" + st)
             if st == "skipped":
                 continue
+            swallowed = False
             slot = op.get("via", "fresh")
             objs = [x for x in (slot if slot != "fresh" else None, ("conv:" + op["conv"]) if op.get("conv") else None) if x]
             if st == "injected":
@@ -162,7 +163,12 @@ class Evaluator:
                 for x in objs:
                     poisoned.add(x)
             elif op.get("fault") and rec.get("fired_at"):
+                # the injected exception was raised but something swallowed it and the call went on: what the call
+                # returns is then a product of the fault, not of the history; judged like any interrupted call
                 self.stats.inc("F2_fired_but_swallowed")
+                for x in objs:
+                    poisoned.add(x)
+                swallowed = True
             if st == "raised":
                 self.stats.inc("F3_natural_raise")
                 self.stats.inc("F3_raise_" + op.get("cls", kind))
@@ -210,6 +216,11 @@ class Evaluator:
                 cur[h] = d
             # ---- recipes
             ren = lambda _h: "x"
+            if kind == "read" and isinstance(op.get("doc"), dict) and "from_write" in op["doc"]:
+                if "resolved_doc" not in rec:
+                    continue
+                op = dict(op)
+                op["doc"] = {"inline": rec["resolved_doc"]}   # the reference reads the very same text
             if kind in ("read", "build") and st == "ok":
                 recipe[op["out"]] = [norm_op(op, ren)]
                 origin[op["out"]] = kind
@@ -218,6 +229,10 @@ class Evaluator:
             # ---- reference comparisons
             is_poisoned = any(x in poisoned for x in objs)
             if st == "injected":
+                continue
+            if swallowed:
+                if kind == "read" and st == "ok":
+                    tainted.add(op["out"])
                 continue
             if is_poisoned:
                 self.stats.inc("unjudged_poisoned_object")
